@@ -178,6 +178,18 @@ CHECKS = {
         "Trusted: Pandas executor; SQL text compared verbatim. convert_records steps are not generated yet.",
         "4/C11",
     ),
+    "C10": (
+        "metamorphic runtime monitor: refill unreported input columns; narrowed rebuild on restricted inputs",
+        "For each generated pipeline (joins with same-named and differently named keys, shared sub-pipelines feeding two "
+        "branches that need different columns, narrowing steps boosted) every input column that columns_used() does not "
+        "report is refilled with fresh values of its type (twice) and with nulls; the Pandas result and the SQLite "
+        "result must each stay exactly what they were (a raise is a change). The pipeline is also rebuilt over table "
+        "descriptions narrowed to the reported columns (replace_leaves) and must give the same result on inputs "
+        "restricted to those columns.",
+        "Trusted: Pandas executor / SQLite as their own baselines (each backend is compared with itself). A narrowed "
+        "rebuild that the builder rejects (a step names an unreported column) is counted, not judged.",
+        "4/C10",
+    ),
 }
 
 NOT_BUILT = "check not built yet (build in progress, see DESIGN.md section 8)"
